@@ -63,7 +63,7 @@ fn query_clicolor_force() {
 }
 
 #[cfg_attr(kani, kani::proof, kani::unwind(16), kani::stub(std::env::var_os, var_os_stub))]
-fn query_clicolor() {
+fn query_clicolor_plain() {
     let mut i = 0;
     while i < 9 {
         let v = set("CLICOLOR", i);
